@@ -1,3 +1,95 @@
-From Piko Require Import Gossip.Local.
-Example C17_placeholder : True. Proof. exact I. Qed.
-Print Assumptions C17_placeholder.
+(* C17 - Own state is a last-write-wins map; compaction preserves live keys.
+   Only statements here; proofs are in GossipP/LocalP.v. Model: Gossip/Local.v
+   (clusterState.UpsertLocal / DeleteLocal / LeaveLocal / CompactLocal, pkg/gossip/state.go:230-374). *)
+From Coq Require Import List String NArith Bool.
+From Piko Require Import Base.Maps Base.Strs Gossip.Types Gossip.Local GossipP.SortP GossipP.LocalP.
+Import ListNotations.
+Open Scope string_scope. Open Scope N_scope.
+
+(* "after any sequence of upserts and deletes each key shows its most recent value or is deleted":
+   the live view of the state reached by ANY op list (upserts, deletes, compactions with threshold >= 1,
+   leave) over user keys equals the plain map obtained by insert/remove. *)
+Theorem C17_lww_refinement :
+  forall (ops : list lop) (id addr : string),
+    Forall user_op ops ->
+    forall k, user_key k = true ->
+      live (local_run (new_node id addr) ops) k = lookup k (spec_run [] ops).
+Proof.
+  intros ops id addr Hu k Hk.
+  exact (lww_refinement ops (new_node id addr) [] (LInv_new id addr) Hu (fun _ _ => eq_refl) k Hk).
+Qed.
+
+(* the same from any state satisfying the structural invariant (which every reachable state does) *)
+Theorem C17_lww_refinement_from :
+  forall ops s m, LInv s -> Forall user_op ops ->
+    (forall k, user_key k = true -> live s k = lookup k m) ->
+    forall k, user_key k = true -> live (local_run s ops) k = lookup k (spec_run m ops).
+Proof. exact lww_refinement. Qed.
+
+Theorem C17_invariant_reachable :
+  forall ops id addr, Forall user_op ops -> LInv (local_run (new_node id addr) ops).
+Proof. intros ops id addr Hu. exact (LInv_run _ ops (LInv_new id addr) Hu). Qed.
+
+(* "every effective change receives a fresh, strictly larger version and no-op writes consume none" *)
+Theorem C17_versions :
+  forall s o, LInv s -> user_op o ->
+    match o with
+    | LUpsert k _ | LDelete k =>
+        (effective s o -> n_ver (local_step s o) = n_ver s + 1 /\
+                          exists e, lookup k (n_ents (local_step s o)) = Some e /\ e_ver e = n_ver s + 1) /\
+        (~ effective s o -> local_step s o = s)
+    | _ => True
+    end.
+Proof. exact version_step. Qed.
+
+Theorem C17_version_never_decreases : forall s o, n_ver s <= n_ver (local_step s o).
+Proof. exact version_monotone. Qed.
+
+(* "Compaction removes deletion markers without changing any live key or value" (+ relative order of the
+   kept entries, consecutive fresh versions, marker = pre-compaction version) *)
+Theorem C17_compact :
+  forall th s, LInv s -> 1 <= th ->
+  let s' := compact_local th s in
+  (N.of_nat (List.length (filter e_del (values (n_ents s)))) < th -> s' = s) /\
+  (th <= N.of_nat (List.length (filter e_del (values (n_ents s)))) ->
+     (forall k, user_key k = true -> live s' k = live s k) /\
+     (forall k e, lookup k (n_ents s') = Some e -> e_del e = false) /\
+     lookup compactKey (n_ents s') = Some (marker_of (n_ver s) (n_ver s')) /\
+     dump_entries s' =
+       (renum (filter keepb (sort_by_ver (values (n_ents s)))) (n_ver s) ++ [marker_of (n_ver s) (n_ver s')])%list).
+Proof. exact compact_spec. Qed.
+
+(* The pinned tree (before fix D2) treated UpsertLocal(k, "") over a tombstone as unchanged. *)
+Definition upsert_local_pinned (k v : string) (s : node_state) : node_state :=
+  match lookup k (n_ents s) with
+  | Some ex => if String.eqb (e_val ex) v then s
+               else let ver := n_ver s + 1 in set_ents s (insert k (mk_entry k v ver false false) (n_ents s)) ver
+  | None => let ver := n_ver s + 1 in set_ents s (insert k (mk_entry k v ver false false) (n_ents s)) ver
+  end.
+
+Theorem C17_refuted_pinned :
+  exists k, user_key k = true /\
+    live (upsert_local_pinned k "" (delete_local k (upsert_local k "v" (new_node "a" "a:1")))) k
+    <> lookup k (spec_run [] [LUpsert k "v"; LDelete k; LUpsert k ""]).
+Proof. exists "k". split; [reflexivity|]. vm_compute. discriminate. Qed.
+
+(* non-vacuity: a concrete history meeting every hypothesis, crossing a compaction *)
+Example C17_example_history :
+  let ops := [LUpsert "k" "1"; LUpsert "j" "2"; LDelete "k"; LCompact 1; LUpsert "k" ""; LLeave] in
+  Forall user_op ops /\
+  live (local_run (new_node "a" "a:1") ops) "k" = Some "" /\
+  live (local_run (new_node "a" "a:1") ops) "j" = Some "2" /\
+  n_ver (local_run (new_node "a" "a:1") ops) = 7.
+Proof.
+  cbn zeta. split; [|vm_compute; auto].
+  repeat constructor; vm_compute; discriminate.
+Qed.
+
+Print Assumptions C17_lww_refinement.
+Print Assumptions C17_lww_refinement_from.
+Print Assumptions C17_invariant_reachable.
+Print Assumptions C17_versions.
+Print Assumptions C17_version_never_decreases.
+Print Assumptions C17_compact.
+Print Assumptions C17_refuted_pinned.
+Print Assumptions C17_example_history.
